@@ -1,15 +1,15 @@
 #!/bin/bash
 # tools/save_seed.sh <id-lowercase> <detected-by text> : store a confirmed seeded change under /verif/seeded/<ID>/
 id=$1; shift; detected="$*"
-ID=$(echo $id | tr a-z A-Z); src=/tmp/seed-$id-out; dst=/verif/seeded/$ID
+base=${id%b}; ID=$(echo $base | tr a-z A-Z); DIR=$ID${id#$base}; src=/tmp/seed-$id-out; dst=/verif/seeded/$DIR
 mkdir -p $dst; cp $src/patch.diff $dst/patch.diff; rm -rf $dst/demo; cp -r $src/demo $dst/demo
-python3 - "$src/meta.json" "$dst/meta.json" "$ID" "$detected" <<'PY'
+python3 - "$src/meta.json" "$dst/meta.json" "$ID" "$detected" "$DIR" <<'PY'
 import json,sys
-src,dst,ID,det=sys.argv[1:5]
+src,dst,ID,det,DIR=sys.argv[1:6]
 m=json.load(open(src))
 m["property"]=ID
 m["detected_by"]=det
-m["how_to_run_against_checks"]=f"git -C /repo apply /verif/seeded/{ID}/patch.diff && ./check {ID} --tier quick ; git -C /repo checkout -- ."
+m["how_to_run_against_checks"]=f"git -C /repo apply /verif/seeded/{DIR}/patch.diff && ./check {ID} --tier quick ; git -C /repo checkout -- ."
 json.dump(m,open(dst,"w"),indent=1)
 PY
 echo saved $dst
